@@ -168,7 +168,9 @@ class RecursiveDescent(object):
             self.error_msg("Expected {}, found {}", typ, self.token.typ)
 
     def error_msg(self, format, *args):
-        msg = format.format(*args)
+        # A message without arguments is already formatted
+        # and may contain braces from the declaration.
+        msg = format.format(*args) if args else format
         ptr = " " * self.token.column + "^"
         raise RuntimeError("\n".join(["Parse Error", self.decl, ptr, msg]))
 
